@@ -1,7 +1,7 @@
 (* C05 — Provision mints a fair share and pulls exactly the declared deposits.
    Function level (this block): the share computed by calculate_lp_token_amount_to_user.
    System level (ledger effect, reserved unit, zero-share rejection) is stated over the world model. *)
-From HT Require Import Base.Prelude Num.Arith Amm.Formulas Proofs.LiquidityProofs.
+From HT Require Import Base.Prelude Num.Arith Amm.Formulas Amm.Guards World.World Proofs.LiquidityProofs Proofs.LedgerProofs Proofs.LivenessProofs.
 
 (* positive supply T: m = min_i floor(d_i*T/r_i), i.e. m*r_i <= d_i*T for both i and
    (m+1)*r_j > d_j*T for the minimising j:  min_i(d_i*T/r_i) - 1 < m <= min_i(d_i*T/r_i) *)
@@ -26,6 +26,41 @@ Example C05_nonvacuous :
   lp_share false 0 0 2000 100 400 1000 4000 = Ok 200.
 Proof. split; vm_compute; reflexivity. Qed.
 
+(* ---- system level: the provision handler on the world model ([w] already holds the attached funds) ---- *)
+(* exactly the declared deposits are pulled from the caller (cw20: transfer_from with owner = caller,
+   recipient = pair; native: must equal the attached coin, see C09, and is netted from the observed
+   reserve), the share is computed on the netted reserves, a zero share is rejected, on an empty pair
+   one unit goes to the LP token's own address and share-1 to the receiver *)
+Theorem C05_structure : forall w p ps c funds l0 n0 l1 n1 tol rcv w',
+  pair_provide w p ps c funds l0 n0 l1 n1 tol rcv = Ok w' ->
+  exists r0 r1 d0 d1 q0 q1 total share,
+    asset_balance w (p_a0 ps) p = Ok r0 /\ asset_balance w (p_a1 ps) p = Ok r1 /\
+    deposit_of (p_a0 ps) l0 n0 l1 n1 = Ok d0 /\ deposit_of (p_a1 ps) l0 n0 l1 n1 = Ok d1 /\
+    (q0 = if asset_is_native (p_a0 ps) then r0 - d0 else r0) /\ (asset_is_native (p_a0 ps) = true -> d0 <= r0) /\
+    (q1 = if asset_is_native (p_a1 ps) then r1 - d1 else r1) /\ (asset_is_native (p_a1 ps) = true -> d1 <= r1) /\
+    assert_slippage_tolerance tol d0 d1 q0 q1 = Ok tt /\
+    token_supply w (p_lp ps) = Ok total /\
+    lp_share (mem_addr c (p_wl ps)) (p_min0 ps) (p_min1 ps) total d0 d1 q0 q1 = Ok share /\ share <> 0 /\
+    exists w1 w2,
+      (match p_a0 ps with AToken ta => with_token w ta (fun t => tok_transfer_from t p c p d0) | ANative _ => Ok w end) = Ok w1 /\
+      (match p_a1 ps with AToken ta => with_token w1 ta (fun t => tok_transfer_from t p c p d1) | ANative _ => Ok w1 end) = Ok w2 /\
+      let r := match rcv with Some x => x | None => c end in
+      if total =? 0 then
+        exists w3, with_token w2 (p_lp ps) (fun t => tok_mint t p (p_lp ps) 1) = Ok w3 /\ 1 <= share /\
+                   with_token w3 (p_lp ps) (fun t => tok_mint t p r (share - 1)) = Ok w'
+      else with_token w2 (p_lp ps) (fun t => tok_mint t p r share) = Ok w'.
+Proof. exact pair_provide_structure. Qed.
+
+Theorem C05_supply : forall w p ps c funds l0 n0 l1 n1 tol rcv w',
+  pair_provide w p ps c funds l0 n0 l1 n1 tol rcv = Ok w' ->
+  asset_eqb (p_a0 ps) (AToken (p_lp ps)) = false -> asset_eqb (p_a1 ps) (AToken (p_lp ps)) = false ->
+  exists total share, token_supply w (p_lp ps) = Ok total /\ share <> 0 /\ supply w' (p_lp ps) = total + share /\
+    (total = 0 -> bal w' (AToken (p_lp ps)) (p_lp ps) = bal w (AToken (p_lp ps)) (p_lp ps) + 1 \/
+                  (match rcv with Some x => x | None => c end) = p_lp ps).
+Proof. exact pair_provide_supply. Qed.
+
+Print Assumptions C05_structure.
+Print Assumptions C05_supply.
 Print Assumptions C05_share.
 Print Assumptions C05_first.
 Print Assumptions C05_nonvacuous.
